@@ -140,18 +140,27 @@ def date_read_lexical(sx, tzkind):
     return sx.And(sx.eq(back.year, Y), sx.eq(back.month, Mo), sx.eq(back.day, D))
 
 
-@harness('C08', functions=[IN_FUNCS[3], OUT_FUNCS[2]], bounds={'value': 'every time of day, all microseconds'})
-def time_roundtrip(sx, p):
-    v = sx.time('v')
+@harness('C08', params=['naive', 'utc', 'offset'], functions=[IN_FUNCS[3], OUT_FUNCS[2]],
+         bounds={'value': 'every time of day, all microseconds; naive, UTC and every offset -14:00..+14:00'})
+def time_roundtrip(sx, tzkind):
+    """the text is an xs:time literal and reads back to the same time of day and the same UTC offset"""
+    v = sx.time('v', tz=tzkind)
     text = PROT.to_unicode(Time, v)
     sx.observe('text', text)
-    lex = sx.matches(XS_TIME, text)
+    lex = sx.matches(XS_TIME + TZ, text)
     back = PROT.from_unicode(Time, text)
-    return sx.And(lex, sx.eq(back, v))
+    off_v, off_b = sx.offset_minutes(v), sx.offset_minutes(back)
+    same = sx.And(sx.eq(back.hour, v.hour), sx.eq(back.minute, v.minute), sx.eq(back.second, v.second),
+                  sx.eq(back.microsecond, v.microsecond))
+    if off_v is None:
+        return sx.And(lex, off_b is None, same)
+    return sx.And(lex, off_b is not None, sx.eq(off_b, off_v), same)
 
 
-@harness('C08', functions=[IN_FUNCS[3]], bounds={'literal': 'hh:mm:ss[.f{1..6}], every digit symbolic'})
-def time_read_lexical(sx, p):
+@harness('C08', params=['naive', 'Z', 'offset'], functions=[IN_FUNCS[3]],
+         bounds={'literal': 'hh:mm:ss[.f{1..6}] followed by nothing, Z or an offset -14:00..+14:00; every digit symbolic'})
+def time_read_lexical(sx, tzkind):
+    """every xs:time literal is read as the time of day and the offset it denotes"""
     f = _digits_fields(sx, [('h', 2), ('mi', 2), ('s', 2)])
     nfrac = sx.choose('nfrac', [0, 1, 2, 3, 4, 5, 6])
     text = f['h'] + ':' + f['mi'] + ':' + f['s']
@@ -160,11 +169,24 @@ def time_read_lexical(sx, p):
         fr = sx.digits('frac', nfrac)
         text = text + '.' + fr
         us = sx.digits_value(fr) * 10 ** (6 - nfrac)
+    want_off = None
+    if tzkind == 'Z':
+        text = text + 'Z'
+        want_off = 0
+    elif tzkind == 'offset':
+        sign = sx.choose('sign', ['+', '-'])
+        oh, om = sx.digits('oh', 2), sx.digits('om', 2)
+        sx.assume(sx.And(sx.digits_value(om) <= 59, sx.digits_value(oh) * 60 + sx.digits_value(om) <= 840))
+        text = text + sign + oh + ':' + om
+        want_off = (sx.digits_value(oh) * 60 + sx.digits_value(om)) * (1 if sign == '+' else -1)
     h, mi, s = [sx.digits_value(f[k]) for k in ('h', 'mi', 's')]
     sx.assume(sx.And(h <= 23, mi <= 59, s <= 59))
     back = PROT.from_unicode(Time, text)
-    return sx.And(sx.eq(back.hour, h), sx.eq(back.minute, mi), sx.eq(back.second, s),
-                  sx.eq(back.microsecond, us))
+    off_b = sx.offset_minutes(back)
+    ok = sx.And(sx.eq(back.hour, h), sx.eq(back.minute, mi), sx.eq(back.second, s), sx.eq(back.microsecond, us))
+    if want_off is None:
+        return sx.And(ok, off_b is None)
+    return sx.And(ok, off_b is not None, sx.eq(off_b, want_off))
 
 
 # ---- Duration
